@@ -65,10 +65,12 @@ STALE = {
 }
 
 
-def yaml_of(listed, ruled, stale=(), selective=None):
-    y = f'type: google.api.Service\nconfig_version: 3\nname: mix.example.com\ntitle: Mix\napis:\n- name: {P}.Lib\n'
+def yaml_of(listed, ruled, stale=(), selective=None, svc='Lib', own_last=False):
+    y = f'type: google.api.Service\nconfig_version: 3\nname: mix.example.com\ntitle: Mix\napis:\n' + ('' if own_last else f'- name: {P}.{svc}\n')
     for a in listed:
         y += f'- name: {a}\n'
+    if own_last:
+        y += f'- name: {P}.{svc}\n'
     if selective is not None:
         internal, methods = selective
         y += ('publishing:\n  library_settings:\n'
@@ -119,6 +121,12 @@ def states():
         out.append(dict(id=f'selective/{"internal" if internal else "pruned"}', listed=[OPS, IAM, LOC], ruled=list(CANON),
                         selective=(internal, ['Lib.GetBook']), own_iam=False, legacy=False))
     out.append(dict(id='subpackages-only', listed=[OPS, IAM, LOC], ruled=list(CANON), own_iam=False, legacy=False, layout='subpackages'))
+    # wave 7: the API's own service carries the short name of a mixin interface, and is listed before / after the mixins
+    for sv in ('Locations', 'Operations', 'IAMPolicy'):
+        for last in (False, True):
+            out.append(dict(id=f'own-service-named-{sv}/{"listed-last" if last else "listed-first"}', listed=[OPS, IAM, LOC], ruled=list(CANON),
+                            own_iam=False, legacy=False, svc_name=sv, own_last=last))
+    out.append(dict(id='own-service-listed-last', listed=[OPS, IAM, LOC], ruled=list(CANON), own_iam=False, legacy=False, own_last=True))
     out.append(dict(id='no-yaml', listed=None, ruled=[], own_iam=False, legacy=False))
     return out
 
@@ -148,7 +156,7 @@ def build(st, transport):
     mods = ['google.iam.v1.iam_policy_pb2']
     own = method('SetIamPolicy', '.google.iam.v1.SetIamPolicyRequest', '.google.iam.v1.Policy',
                  http=('post', '/v1/{resource=books/*}:setIamPolicy', '*'))
-    svcs = [service('Lib', meths)]
+    svcs = [service(st.get('svc_name', 'Lib'), meths)]
     if st['own_iam'] and st.get('own_svc', 'Lib') == 'Lib':
         meths.append(own)
         svcs = [service('Lib', meths)]
@@ -171,7 +179,8 @@ def build(st, transport):
     of = None
     if st['listed'] is not None:
         param += ',service-yaml=@svc.yaml@'
-        of = {'svc.yaml': yaml_of(st['listed'], st['ruled'], st.get('stale', ()), st.get('selective'))}
+        of = {'svc.yaml': yaml_of(st['listed'], st['ruled'], st.get('stale', ()), st.get('selective'), svc=st.get('svc_name', 'Lib'),
+                                  own_last=st.get('own_last', False))}
         if st.get('layout') == 'subpackages':
             of['svc.yaml'] = of['svc.yaml'].replace(f'- name: {P}.Lib', f'- name: {P}.api.Lib')
     if st['legacy']:
@@ -186,7 +195,7 @@ def make_job(st, transport):
     return dict(id=f'{st["id"]}|{transport}', req=req.SerializeToString(), opt_files=of, probe='mc.probes.mixins',
                 probe_args=dict(package=names.import_package(P) + ('.api' if st.get('layout') == 'subpackages' else ''), transport=transport, canon={k: list(v) for k, v in CANON.items()},
                                 rules={k: [v[0], v[1], v[2], [list(x) for x in v[3]]] for k, v in RULES.items()}, values=VALUES,
-                                legacy=st['legacy'], own_iam=st['own_iam'], ruled=st['ruled'], service=('BaseLib' if st.get('selective') and st['selective'][0] else st.get('own_svc', 'Lib')),
+                                legacy=st['legacy'], own_iam=st['own_iam'], ruled=st['ruled'], service=('BaseLib' if st.get('selective') and st['selective'][0] else st.get('own_svc', st.get('svc_name', 'Lib'))),
                                 own_path=f'/{P}.{st.get("own_svc", "Lib")}/SetIamPolicy'),
                 _st=st, _transport=transport)
 
